@@ -1,7 +1,7 @@
 #!/bin/bash
 # tools/run_all.sh [quick|thorough] — run every registered check on /repo's working tree, print one line each
 tier="${1:-quick}"
-cd /verif
+cd "$(dirname "$0")/.."
 if ! git -C /repo diff --quiet; then echo "WARNING: /repo has local changes"; fi
 rc=0
 for p in C01 C02 C03 C04 C05 C06 C07 C08 C09 C10 C11 C12 C13 C14 C15 C16 C17 C18 C19 C20; do
